@@ -87,6 +87,7 @@ type c16 struct {
 	lowKept map[int]bool        // actor keeps a vote while staking power < min
 	invBrk  map[string]bool     // registered invariant currently broken
 	recBad  bool
+	negs    string
 	weekNo  int64
 	claimed map[uint64]math.Int // per endorsement gauge: claimed in the current distribution epoch
 	allot   map[uint64]math.Int // per endorsement gauge: allotment of the current distribution epoch
@@ -746,7 +747,7 @@ func (h *c16) exec(line string) (string, string) {
 }
 
 func (h *c16) resetTrace() {
-	h.kinds, h.changed, h.slashed, h.recBad, h.curDel = nil, false, false, false, -1
+	h.kinds, h.changed, h.slashed, h.recBad, h.curDel, h.negs = nil, false, false, false, -1, ""
 	h.assetG, h.nonPerp, h.eG, h.eGr = nil, 0, nil, map[uint64]int{}
 	h.unb = map[[2]int][]c16Unb{}
 	h.gDisc, h.vpDisc, h.pDisc, h.lowKept, h.invBrk = map[uint64]string{}, "0", map[int]string{}, map[int]bool{}, map[string]bool{}
@@ -793,6 +794,7 @@ func (h *c16) monitorState(kind, cls string) {
 		}
 	}
 	got := map[uint64]math.Int{}
+	negs := ""
 	for _, g := range d.Gauges {
 		ids[g.GaugeId] = true
 		if _, ok := got[g.GaugeId]; !ok {
@@ -800,7 +802,7 @@ func (h *c16) monitorState(kind, cls string) {
 		}
 		got[g.GaugeId] = got[g.GaugeId].Add(g.Power)
 		if g.Power.IsNegative() {
-			h.r.Violate("C16/distribution_eq_sum_of_votes/negative-gauge-power/"+oc, fmt.Sprintf("gauge %d has power %s in the distribution", g.GaugeId, g.Power), h.lines...)
+			negs += fmt.Sprintf(" %d:%s", g.GaugeId, g.Power)
 		}
 	}
 	preDisc := len(h.gDisc) > 0 || h.vpDisc != "0"
@@ -825,6 +827,14 @@ func (h *c16) monitorState(kind, cls string) {
 				fmt.Sprintf("after `%s`: distribution power of gauge %d minus the sum over votes = %s", kind, id, x), h.lines...)
 		}
 	}
+	if negs != "" && negs != h.negs {
+		q := oc
+		if preDisc && !newDisc {
+			q = "residue-of-earlier-discrepancy"
+		}
+		h.r.Violate("C16/distribution_eq_sum_of_votes/negative-gauge-power/"+q, fmt.Sprintf("after `%s`: negative gauge power stored in the distribution:%s", kind, negs), h.lines...)
+	}
+	h.negs = negs
 	h.gDisc = nd
 	if x := d.VotingPower.Sub(sumVP).String(); x != h.vpDisc {
 		if x != "0" {
@@ -1026,7 +1036,7 @@ func TestC16(t *testing.T) {
 	// hlib's splitmix streams of nearby seeds are shifts of one another (state = (seed+k)·γ + c):
 	// re-seed through the output function so that VERIF_SEED=1,2,3 give unrelated trace sets
 	root := NewRng(r.Rng.U64() ^ 0xC16C16C16)
-	n := r.N(60, 700)
+	n := r.N(400, 5000)
 	for i := 0; i < n; i++ {
 		c16GenTrace(h, root.Fork(), emit, 30+root.Intn(40))
 		endTrace()
